@@ -165,6 +165,8 @@ func (propC10) Gen(seed uint64, tier string, idx int) any {
 			for i, n := 0, r.Range(1, 3); i < n; i++ {
 				if r.Pct(20) {
 					ops = append(ops, genRowPipelineOp(r))
+				} else if r.Pct(8) {
+					ops = append(ops, genAnimEncOp(r))
 				} else {
 					ops = append(ops, GenStillOp(r, 1, 40, false))
 				}
@@ -239,6 +241,9 @@ func soloResult(x *X, op Op, k int, input []byte) (Result, *Violation) {
 }
 
 func codecOf(op Op) string {
+	if op.Kind == "animenc" {
+		return "anim"
+	}
 	if op.Opt.Lossless {
 		return "lossless"
 	}
@@ -258,7 +263,7 @@ func (propC10) Execute(pp any, x *X) *Violation {
 	for c, ops := range p.Clients {
 		inputs[c] = make([][]byte, len(ops))
 		for i, op := range ops {
-			if op.Kind != "enc" {
+			if needsInput(op) {
 				inputs[c][i] = FileFor(op.Img, op.Opt)
 			}
 		}
@@ -358,4 +363,21 @@ func (propC10) Describe() PropDoc {
 		Reference: []string{"the same operation executed alone in a fresh world under the canonical schedule with the same worker count"},
 		MustReach: []string{"cond_slow_path", "cond_woken", "pool_hit", "pool_cross_task_hit", "preemptions", "wg_wait_blocked"},
 	}
+}
+
+// genAnimEncOp: a short animation-encoder history as one client operation; frames
+// are kept by the muxer until Close, so a frame bitstream that aliases pooled
+// memory is exposed.
+func genAnimEncOp(r *RNG) Op {
+	a := GenAnimSpec(r, 40, 4, r.Pct(70), 40)
+	a.FailAlt, a.FailBG = false, false
+	for i := range a.Frames {
+		if a.Frames[i].Dur > 1<<20 {
+			a.Frames[i].Dur = 40
+		}
+		if i > 0 && r.Pct(50) {
+			a.Frames[i].Mut = "big"
+		}
+	}
+	return Op{Kind: "animenc", Anim: &a}
 }
